@@ -1,5 +1,6 @@
 import AdbModel
 import Driver.Util
+import Driver.Session
 /-
   Model driver: one request per line on stdin, one reply line per request on stdout.
   The Python harness sends the same operations to the real implementation and diffs.
@@ -8,6 +9,7 @@ open Adb Drv
 
 structure DState where
   store : Store := []
+  sess : Sess := {}
 
 def showQItems (q : List QItem) : String :=
   "[" ++ ",".intercalate (q.map (fun (c, d) => c.name ++ ":" ++ toHex d)) ++ "]"
@@ -98,6 +100,7 @@ def step (st : DState) (line : String) : DState × String :=
   match tokens line with
   | "codec" :: rest => (st, stepCodec rest)
   | "store" :: rest => stepStore st rest
+  | "sess" :: rest => let (s', out) := stepSess st.sess rest; ({ st with sess := s' }, out)
   | _ => (st, "bad-op")
 
 partial def loop (hin hout : IO.FS.Stream) (st : DState) : IO Unit := do
